@@ -153,6 +153,12 @@ CORPUS = [
     'SELECT s, sum(i) AS x, count(*) AS n, last(i) AS l FROM #t GROUP BY s LIMIT 2',
     'SELECT t, min(i) AS lo, max(i) AS hi FROM #t GROUP BY t LIMIT 1',
     'SELECT a, x FROM (SELECT s AS a, sum(i) AS x FROM #t GROUP BY s LIMIT 2)',
+    # GROUP BY without any aggregate: one row per group, also when the groups differ only in a key that is not selected
+    'SELECT s FROM #t GROUP BY s, t',
+    'SELECT t FROM #t GROUP BY t, s, j',
+    'SELECT count(*) AS n FROM (SELECT s FROM #t GROUP BY s, t)',
+    'SELECT s, t FROM #t GROUP BY s, t',
+    'SELECT s FROM #t GROUP BY s, i % 2 ORDER BY s',
 ]
 
 
@@ -222,8 +228,46 @@ def tuple_key_layer(ctx):
         ctx.count('corpus')
 
 
+def inventory_aggregate_layer(ctx):
+    """sums of inventories (the per-account balances of a subquery) next to other aggregates over the same column: every
+    aggregate gives what it gives alone, and the inputs are not written to (oracle on the implementation)"""
+    import ledgers
+    text, entries, errors, options = ledgers.gen_ledger(ctx.rng, ntxn=10)
+    conn = ledgers.connect(entries, errors, options)
+    inner = 'SELECT account, root(account, 1) AS r, sum(position) AS inv FROM #postings GROUP BY account, r'
+    single = {}
+    for agg in ('sum', 'first', 'last', 'count'):
+        single[agg] = [(r[0], str(r[1])) for r in conn.execute('SELECT r, %s(inv) AS x FROM (%s) GROUP BY r' % (agg, inner)).fetchall()]
+    combos = [('sum', 'first'), ('first', 'sum'), ('sum', 'sum'), ('sum', 'last', 'first'), ('count', 'sum', 'first')]
+    for combo in combos:
+        q = 'SELECT r, %s FROM (%s) GROUP BY r' % (', '.join('%s(inv) AS x%d' % (a, k) for k, a in enumerate(combo)), inner)
+        rows = conn.execute(q).fetchall()
+        ctx.evaluations += 1
+        ctx.count('inventory-aggregates')
+        ctx.nontrivial_hashes.add(hash(('inventory-aggregates', combo)))
+        for k, a in enumerate(combo):
+            got = [(r[0], str(r[1 + k])) for r in rows]
+            if got != single[a]:
+                ctx.record_violation('aggregate-depends-on-neighbours', '%s: %s(inv) gives %r, alone it gives %r' % (q, a, got, single[a]),
+                                     payload={'statement': q, 'ledger': text})
+                return
+    q = 'SELECT r, sum(inv) AS s FROM (%s) GROUP BY r HAVING NOT empty(sum(inv))' % inner
+    want = [x for x in single['sum'] if x[1] != '()']
+    got = [(r[0], str(r[1])) for r in conn.execute(q).fetchall()]
+    ctx.evaluations += 1
+    if got != want:
+        ctx.record_violation('aggregate-depends-on-neighbours', '%s gives %r, expected %r' % (q, got, want), payload={'statement': q, 'ledger': text})
+    # the total over everything equals the direct total
+    total = str(conn.execute('SELECT sum(inv) AS s, first(inv) AS f FROM (%s)' % inner).fetchall()[0][0])
+    direct = str(conn.execute('SELECT sum(position) AS s FROM #postings').fetchall()[0][0])
+    if total != direct:
+        ctx.record_violation('aggregate-depends-on-neighbours', 'sum of the per-account balances %s, direct total %s' % (total, direct),
+                             payload={'ledger': text})
+
+
 def run(ctx):
     corpus_layer(ctx)
+    inventory_aggregate_layer(ctx)
     tuple_key_layer(ctx)
     small_layer(ctx)
     random_layer(ctx, 60000 if ctx.thorough() else 600)
